@@ -22,3 +22,13 @@ Definition s_colon := s ":".
 Definition s_hash := s "#".
 Definition s_key := s "__key__".
 Definition s_empty : str := nil.
+Definition s_sum := s "sum".
+Definition s_avg := s "avg".
+Definition s_median := s "median".
+Definition s_max := s "max".
+Definition s_min := s "min".
+Definition s_first := s "first".
+Definition s_last := s "last".
+Definition s_count := s "count".
+Definition s_set := s "set".
+Definition s_counters := s "counters".
